@@ -52,16 +52,21 @@ CONSTANTS
   NEnv,            \* number of environments
   Lits,            \* sequence of [nm, v]: literal scalars
   Zeros,           \* sequence of shapes: zero tensors (instances of Zero)
-  IdxPool,         \* sequence of index names (integers >= 10)
-  OpSet,           \* enabled operations
-  MaxNodes, MaxRank, MaxDim,
+  Slices,          \* sequence of [ops, ids, idx, maxnodes, maxrank]: the bounded instances explored
+                   \* in this run: enabled operations, usable initial nodes, usable index names
+                   \* (integers >= 10), bound on constructed nodes, bound on the rank
+  MaxDim,          \* maximal axis dimension
   ComplexMode,     \* BOOLEAN: compute_form_data(..., complex_mode=...)
   ListTensorRule,  \* "as_coded" | "intended"
   NGroups,         \* number of independent environment groups (>= 2)
   NArgs            \* the form's arguments are numbered 0..NArgs-1
 
-VARIABLE store
-vars == <<store>>
+VARIABLES store,   \* the construction history
+          sl       \* the slice this behaviour explores (constant along a behaviour)
+vars == <<store, sl>>
+OpSet == Slices[sl].ops
+MaxNodes == Slices[sl].maxnodes
+MaxRank == Slices[sl].maxrank
 
 Envs == 1..NEnv
 AllArgs == 0..(NArgs - 1)
@@ -184,9 +189,10 @@ InitStore == [k \in 1..Len(Terminals) |-> TermNode(k)]
              \o [k \in 1..Len(Lits) |-> LitNode(k)]
              \o [k \in 1..Len(Zeros) |-> ZeroNode(k)]
 NInit == Len(Terminals) + Len(Lits) + Len(Zeros)
-Init == store = InitStore
+Init == store = InitStore /\ sl \in 1..Len(Slices)
 
-Ids == 1..Len(store)
+\* usable operands: the slice's initial nodes and everything constructed
+Ids == Slices[sl].ids \cup ((NInit + 1)..Len(store))
 Room == Len(store) < NInit + MaxNodes
 
 \* every constructed node is an ancestor of the last one
@@ -368,41 +374,64 @@ DoOuter(a, b) == LET x == store[a]  y == store[b] IN
                                     H_linear_indexed_type(Ar(b, r), MI)), MI)))
 
 -----------------------------------------------------------------------------
-IdxNames == {IdxPool[k] : k \in 1..Len(IdxPool)}
+IdxNames == Slices[sl].idx
 Mis(r) == [1..r -> (0..(MaxDim - 1)) \cup IdxNames]
 IdxSeqs == UNION {[1..r -> IdxNames] : r \in 1..MaxRank}
 
+\* one constructor call; op names the operation, a, b, k its operands (k: the condition of cond,
+\* the third component of a 3-list)
+Unary(op, a) ==
+  \/ op = "abs" /\ Gen1(a) /\ DoAbs(a)
+  \/ op = "sqrt" /\ Gen1(a) /\ DoSqrt(a)
+  \/ op = "sign" /\ Gen1(a) /\ DoSign(a)
+  \/ op = "conj" /\ Gen1(a) /\ DoConj(a)
+  \/ op = "real" /\ Gen1(a) /\ DoReal(a)
+  \* remove_complex_nodes refuses imag in real mode
+  \/ op = "imag" /\ ComplexMode /\ Gen1(a) /\ DoImag(a)
+  \/ op = "neg" /\ Gen1(a) /\ DoNeg(a)
+  \/ op = "index" /\ Gen(a) /\ Rank(store[a]) >= 1 /\ \E mi \in Mis(Rank(store[a])) : DoIndex(a, mi)
+  \/ op = "isum" /\ Gen(a) /\ \E i \in FiIdx(store[a].fi) : DoISum(a, i)
+  \/ op = "as_tensor" /\ Gen(a) /\ \E ii \in IdxSeqs : DoAsTensor(a, ii)
+  \/ op = "restrict" /\ DoRestrict(a)
+  \/ op = "variable" /\ Gen1(a) /\ DoVariable(a)
+Binary(op, a, b) ==
+  \/ op = "add" /\ Gen2(a, b) /\ DoAdd(a, b)
+  \/ op = "sub" /\ Gen2(a, b) /\ a # b /\ DoSub(a, b)
+  \/ op = "mul" /\ Gen2(a, b) /\ ~IsOne(a) /\ ~IsOne(b) /\ DoMul(a, b)
+  \/ op = "div" /\ Gen2(a, b) /\ ~IsOne(b) /\ DoDiv(a, b)
+  \/ op = "pow" /\ Gen2(a, b) /\ ~IsOne(b) /\ DoPow(a, b)
+  \/ op \in BoolOps /\ ~(IsL(a) /\ IsL(b)) /\ DoCmp(op, a, b)
+  \/ op = "inner" /\ Gen2(a, b) /\ DoInner(a, b)
+  \/ op = "dot" /\ Gen2(a, b) /\ DoDot(a, b)
+  \/ op = "outer" /\ Gen2(a, b) /\ DoOuter(a, b)
+  \/ op = "list" /\ ~(IsZ(a) /\ IsZ(b)) /\ DoList(<<a, b>>)
+Ternary(op, a, b, k) ==
+  \/ op = "list" /\ MaxDim >= 3 /\ ~(IsZ(a) /\ IsZ(b) /\ IsZ(k)) /\ DoList(<<a, b, k>>)
+  \/ op = "cond" /\ a # b /\ DoCond(k, a, b)
+
 Next ==
-  /\ Room
-  /\ \E a \in Ids :
-       \/ "abs" \in OpSet /\ Gen1(a) /\ DoAbs(a)
-       \/ "sqrt" \in OpSet /\ Gen1(a) /\ DoSqrt(a)
-       \/ "sign" \in OpSet /\ Gen1(a) /\ DoSign(a)
-       \/ "conj" \in OpSet /\ Gen1(a) /\ DoConj(a)
-       \/ "real" \in OpSet /\ Gen1(a) /\ DoReal(a)
-       \* remove_complex_nodes refuses imag in real mode
-       \/ "imag" \in OpSet /\ ComplexMode /\ Gen1(a) /\ DoImag(a)
-       \/ "neg" \in OpSet /\ Gen1(a) /\ DoNeg(a)
-       \/ "index" \in OpSet /\ Gen(a) /\ Rank(store[a]) >= 1 /\ \E mi \in Mis(Rank(store[a])) : DoIndex(a, mi)
-       \/ "isum" \in OpSet /\ Gen(a) /\ \E i \in FiIdx(store[a].fi) : DoISum(a, i)
-       \/ "as_tensor" \in OpSet /\ Gen(a) /\ \E ii \in IdxSeqs : DoAsTensor(a, ii)
-       \/ "restrict" \in OpSet /\ DoRestrict(a)
-       \/ "variable" \in OpSet /\ Gen1(a) /\ DoVariable(a)
-       \/ \E b \in Ids :
-            \/ "add" \in OpSet /\ Gen2(a, b) /\ DoAdd(a, b)
-            \/ "sub" \in OpSet /\ Gen2(a, b) /\ a # b /\ DoSub(a, b)
-            \/ "mul" \in OpSet /\ Gen2(a, b) /\ ~IsOne(a) /\ ~IsOne(b) /\ DoMul(a, b)
-            \/ "div" \in OpSet /\ Gen2(a, b) /\ ~IsOne(b) /\ DoDiv(a, b)
-            \/ "pow" \in OpSet /\ Gen2(a, b) /\ ~IsOne(b) /\ DoPow(a, b)
-            \/ \E op \in BoolOps \cap OpSet : ~(IsL(a) /\ IsL(b)) /\ DoCmp(op, a, b)
-            \/ "inner" \in OpSet /\ Gen2(a, b) /\ DoInner(a, b)
-            \/ "dot" \in OpSet /\ Gen2(a, b) /\ DoDot(a, b)
-            \/ "outer" \in OpSet /\ Gen2(a, b) /\ DoOuter(a, b)
-            \/ "list" \in OpSet /\ ~(IsZ(a) /\ IsZ(b)) /\ DoList(<<a, b>>)
-            \/ "list" \in OpSet /\ MaxDim >= 3 /\ \E c \in Ids : ~(IsZ(a) /\ IsZ(b) /\ IsZ(c)) /\ DoList(<<a, b, c>>)
-            \/ "cond" \in OpSet /\ a # b /\ \E k \in Ids : DoCond(k, a, b)
+  /\ Room /\ sl' = sl
+  /\ \E op \in OpSet : \E a \in Ids :
+       \/ Unary(op, a)
+       \/ \E b \in Ids : Binary(op, a, b) \/ \E k \in Ids : Ternary(op, a, b, k)
 
 Spec == Init /\ [][Next]_vars
+
+\* For -simulate: ONE random constructor call per step (computing every successor of a state just
+\* to pick one is far too expensive here).  Operands are biased towards the nodes built last so
+\* that programs stay connected.
+Pick(S) == {RandomElement(S)}
+SimNext ==
+  /\ Room /\ sl' = sl
+  /\ \E op \in Pick(OpSet) : \E x \in Pick(Ids) : \E y \in Pick(Ids) : \E k \in Pick(Ids) : \E coin \in Pick(1..4) :
+       LET n == Len(store)
+           a == IF coin <= 2 THEN n ELSE x
+           b == IF coin = 2 /\ n - 1 > NInit THEN n - 1 ELSE IF coin = 3 THEN n ELSE y IN
+       \/ Unary(op, a)
+       \/ Binary(op, a, b)
+       \/ Ternary(op, a, b, k)
+SimSpec == Init /\ [][SimNext]_vars
+
 
 -----------------------------------------------------------------------------
 (* Type soundness of the record built last (every node was the last one once) *)
@@ -441,7 +470,8 @@ RejectsNonlinear ==
 EncAr(A) == [rej |-> A.rej, s |-> SetToSeq(A.s), m |-> SetToSeq(A.m)]
 DumpRec == LET x == Top
                M == x.arc.m IN
-  [prog |-> [k \in 1..(TopN - NInit) |->
+  [sl |-> sl,
+   prog |-> [k \in 1..(TopN - NInit) |->
                [op |-> store[NInit + k].op, args |-> store[NInit + k].args, mi |-> store[NInit + k].mi]],
    arc |-> EncAr(x.arc), ari |-> EncAr(x.ari),
    acc |-> [c |-> Accepted(x.arc, M, ComplexMode), i |-> Accepted(x.ari, M, ComplexMode),
